@@ -615,6 +615,152 @@ func label(p []refstream.Op) string {
 	return "prefix=[" + strings.Join(s, " ") + "]"
 }
 
+// flushParkedScenario: a buffered raw write (what a client's invoke is) ; stall ; W = RawFlush or
+// the first receive (which flushes first) parks inside the transport ; up to two calls/packets
+// that do not need the write side ; release. The flags and every result are compared with the
+// state machine; in particular a stream terminated while the flush was parked must become
+// finished once the flush has returned.
+func flushParkedScenario() *mc.Scenario {
+	body := func() {
+		rn := &run{}
+		sched.Cur().State()["run"] = rn
+		w := &stallWriter{}
+		mf := sched.Choose(2, "manual-flush") == 1
+		st := drpcstream.NewWithOptions(context.Background(), sid, drpcwire.NewWriter(w, 4096), drpcstream.Options{SplitSize: 2, ManualFlush: mf})
+		m := &refstream.Model{ManualFlush: mf}
+		fail := func(f string, a ...any) {
+			rn.fails = append(rn.fails, fmt.Sprintf("after [%s]: ", strings.Join(rn.trace, " "))+fmt.Sprintf(f, a...))
+		}
+		signals := func() bool {
+			if got := st.IsTerminated(); got != m.Terminated() {
+				fail("Terminated=%v, the state machine says %v", got, m.Terminated())
+				return false
+			}
+			if got := st.IsFinished(); got != m.Finished() {
+				fail("Finished=%v, the state machine says %v (terminated=%v, a call is parked in the transport=%v, calls in flight=%d)", got, m.Finished(), m.Terminated(), m.WriterBusy, m.InFlight())
+				return false
+			}
+			if got := vs.IsClosed(st.Context().Done()); got != m.Finished() {
+				fail("Context().Done() closed=%v, the state machine says %v", got, m.Finished())
+				return false
+			}
+			return true
+		}
+		calls := 0
+		start := func(op refstream.Op) *callRes {
+			r := &callRes{op: op}
+			c := calls
+			calls++
+			rn.trace = append(rn.trace, string(op))
+			vs.Go(string(op), func() { perform(st, op, c, r) })
+			sched.Quiesce()
+			return r
+		}
+		// the buffered write
+		pred := m.Step(refstream.RawWrite)
+		if r := start(refstream.RawWrite); !r.returned || !classOK(pred.Returned[0].Class, r) || len(w.buf) != 0 {
+			fail("RawWrite: returned=%v err=%v bytes on the transport=%d (a raw write is only buffered)", r.returned, r.err, len(w.buf))
+			return
+		}
+		w.mon.Do("stall", nil, func() { w.stalled = true })
+		rn.trace = append(rn.trace, "<stall>")
+		wop := []refstream.Op{refstream.Flush, refstream.Recv, refstream.RawRecv}[sched.Choose(3, "W")]
+		m.Step(wop) // the flush proceeds: the state allows it
+		wr := start(wop)
+		if wr.returned || len(w.buf) == 0 {
+			fail("%s returned=%v with %d bytes handed to the stalled transport, want it parked in its flush", wop, wr.returned, len(w.buf))
+			return
+		}
+		m.WriterBusy = true
+		if !signals() {
+			return
+		}
+		// what the state machine says about the parked receive, once something ends it
+		var wEnded *refstream.Returned
+		for i := 0; i < 2; i++ {
+			x := parkedX[sched.Choose(len(parkedX), "X")]
+			if x == "none" {
+				continue
+			}
+			if x == refstream.SendCancel {
+				if r := start(x); !r.returned || !r.flag || r.err != nil {
+					fail("SendCancel while a flush is parked in the transport: returned=%v busy=%v err=%v, want busy", r.returned, r.flag, r.err)
+					return
+				}
+				continue
+			}
+			pred := m.Step(x)
+			r := start(x)
+			if !r.returned {
+				fail("%s blocks while a flush is parked in the transport", x)
+				return
+			}
+			own := false
+			for k := range pred.Returned {
+				pr := pred.Returned[k]
+				if (pr.Op == refstream.Recv || pr.Op == refstream.RawRecv) && wop != refstream.Flush {
+					wEnded = &pr
+				} else if pr.Op == x {
+					own = true
+					if !classOK(pr.Class, r) {
+						fail("%s returned err=%v flag=%v, the state machine says %s", x, r.err, r.flag, pr.Class)
+						return
+					}
+				}
+			}
+			if !own {
+				fail("%s returned, the state machine has it parked", x)
+				return
+			}
+			if !signals() {
+				return
+			}
+		}
+		w.mon.Do("release", nil, func() { w.stalled = false })
+		rn.trace = append(rn.trace, "<release>")
+		sched.Quiesce()
+		m.WriterBusy = false
+		switch {
+		case wop == refstream.Flush:
+			want := refstream.Nil
+			if c := m.CancelClass(); c != "" {
+				want = c
+			}
+			if !wr.returned || !classOK(want, wr) {
+				fail("RawFlush after the release: returned=%v err=%v, the state machine says %s", wr.returned, wr.err, want)
+			}
+		case wEnded != nil:
+			// (the flush a receive starts with reports a cancellation that happened meanwhile)
+			if c := m.CancelClass(); c != "" && wr.returned && classOK(c, wr) {
+				break
+			}
+			if !wr.returned || !classOK(wEnded.Class, wr) {
+				fail("%s after the release: returned=%v err=%v, the state machine says %s", wop, wr.returned, wr.err, wEnded.Class)
+			}
+		default:
+			if wr.returned {
+				fail("%s returned err=%v after the release, the state machine has it waiting for a message", wop, wr.err)
+			}
+		}
+		if frames, rest, res := refwire.ParseAll(w.buf); res != refwire.OK || len(rest) != 0 || len(frames) == 0 {
+			fail("bytes on the writer are not whole frames")
+		}
+		signals()
+		sched.Observe(m.Key())
+	}
+	check := func(e *sched.Exec) string {
+		if len(e.Panics) > 0 {
+			return "panic: " + e.Panics[0]
+		}
+		rn, _ := e.State()["run"].(*run)
+		if rn != nil && len(rn.fails) > 0 {
+			return rn.fails[0]
+		}
+		return ""
+	}
+	return &mc.Scenario{Name: "stream[flush parked in the transport: RawWrite ; stall ; W=flush|first receive ; X X ; release]", Body: body, Check: check, Model: sched.DataFree, NoCache: true}
+}
+
 func plans(tier string) []mc.Plan {
 	var ps []mc.Plan
 	L, depth, free := 5, 8, 2
@@ -631,6 +777,7 @@ func plans(tier string) []mc.Plan {
 		}
 	}
 	ps = append(ps, mc.Plan{Scen: parkedScenario(), Bounds: []int{0}, Split: true})
+	ps = append(ps, mc.Plan{Scen: flushParkedScenario(), Bounds: []int{0}})
 	if tier == "thorough" {
 		// one scheduling deviation inside every sequence of length 3
 		ps = append(ps, mc.Plan{Scen: scenario(false, nil, 3, "all sequences (1 scheduling deviation)"), Bounds: []int{1}, Split: true})
